@@ -254,6 +254,9 @@ func EpollCtlHook(method string, fd int, do func() error) (err error) {
 }
 
 // Enter logs the entry of an instrumented loop-side function with the given values.
+// Ptr renders the identity of a connection object for entry logs
+func Ptr(v any) string { return fmt.Sprintf("p=%p", v) }
+
 func Enter(fn string, vals ...any) {
 	s := "enter " + fn
 	for _, v := range vals {
